@@ -61,6 +61,13 @@ type EditStep struct {
 	Value string `json:"value"`
 }
 
+// PreRec is one ready-made release record.
+type PreRec struct {
+	Rev   int    `json:"rev"`
+	St    string `json:"st"`
+	Chart string `json:"chart"`
+}
+
 type Scenario struct {
 	ID     string   `json:"id"`
 	Driver string   `json:"driver"` // memory | secret | configmap
@@ -70,6 +77,9 @@ type Scenario struct {
 	Sched []Token `json:"sched,omitempty"`
 	// Setup steps are run sequentially before the trace starts (to reach a populated history).
 	Setup []Step `json:"setup,omitempty"`
+	// PreLedger: records written straight into release storage before the trace starts - histories that no
+	// sequence of successful operations produces (two deployed revisions, a revision left pending, ...)
+	PreLedger []PreRec `json:"preledger,omitempty"`
 }
 
 // ---- environment --------------------------------------------------------------------
@@ -141,6 +151,26 @@ func (e *Env) seedForeign() {
 			}
 		}
 	}
+}
+
+// seedRecord renders the chart like a client-only dry run does and stores the result as revision pr.Rev with status
+// pr.St through the raw driver (no recorded call).
+func (e *Env) seedRecord(pr PreRec) error {
+	ch, err := BuildChart(pr.Chart, e.Lib[pr.Chart])
+	if err != nil {
+		return err
+	}
+	in := action.NewInstall(e.Config(-1))
+	in.ReleaseName, in.Namespace = RelName, RelNS
+	in.DryRun, in.ClientOnly, in.Replace = true, true, true
+	rel, err := in.Run(ch, map[string]interface{}{})
+	if err != nil {
+		return err
+	}
+	rel.Version = pr.Rev
+	rel.Info.Status = rspb.Status(pr.St)
+	rel.Info.Description = "ready-made"
+	return e.rawDriver(-1).Create(fmt.Sprintf("sh.helm.release.v1.%s.v%d", RelName, pr.Rev), rel)
 }
 
 func nameOfKey(key string) string {
@@ -666,6 +696,11 @@ func Run(lib ChartLib, sc Scenario) []Event {
 	}
 	for i, s := range sc.Setup {
 		e.RunOp(9, i, s)
+	}
+	for _, pr := range sc.PreLedger {
+		if err := e.seedRecord(pr); err != nil {
+			panic("harness: cannot write the ready-made record: " + err.Error())
+		}
 	}
 	e.Rec.ResetLog()
 	e.Rec.Log(Event{Ev: "reset", Scenario: sc.ID, Driver: sc.Driver, OK: true})
